@@ -92,12 +92,9 @@ func compareViews(c hsCase, ri, rr *partyResult) []string {
 			diff = append(diff, fmt.Sprintf("stored-remote-key(i=%v,r=%v)", vi.StoredKey != nil, vr.StoredKey != nil))
 		}
 	}
-	if vi.OnAuth != 1 {
-		diff = append(diff, fmt.Sprintf("onAuthData-calls=%d", vi.OnAuth))
-	}
-	if vr.OnAuth != 0 {
-		diff = append(diff, "responder-onAuthData-called")
-	}
+	// (How often the onAuthData callback fires is not part of the
+	// property: what the initiator holds is. That a payload held from an
+	// earlier handshake is replaced is checked by the reconnect cases.)
 	return diff
 }
 
@@ -203,6 +200,69 @@ func TestC04(t *testing.T) {
 	}
 	parallel(len(partA), func(i int) { check(partA[i], hsOpts{}, "", false) })
 	r.Sample(map[string]any{"part": "A", "case": partA[len(partA)/3].String(), "tamper": "none"})
+
+	// Part A2: reconnects. The same client (same ConnData) completes a
+	// second handshake with a server whose auth payload has changed (grown,
+	// shrunk, become empty, same length but other bytes): afterwards it
+	// holds exactly the new payload. After a version-2 pairing the
+	// reconnect is the KK handshake with the stored key.
+	type rjob struct {
+		v    byte
+		a, b int
+	}
+	var rjobs []rjob
+	for _, v := range []byte{0, 1, 2} {
+		for _, ab := range [][2]int{{7, 0}, {0, 7}, {7, 9}, {600, 3}, {7, 7}, {3, 600}, {498, 0}} {
+			a, b := ab[0], ab[1]
+			if v == 0 {
+				// version 0 carries at most 498 bytes
+				if a > 498 {
+					a = 498
+				}
+				if b > 498 {
+					b = 498
+				}
+			}
+			rjobs = append(rjobs, rjob{v, a, b})
+		}
+	}
+	var reconnects int64
+	parallel(len(rjobs), func(i int) {
+		j := rjobs[i]
+		atomic.AddInt64(&evals, 1)
+		c := hsCase{cMin: j.v, cMax: j.v, sMin: j.v, sMax: j.v, payload: j.a}
+		label := fmt.Sprintf("reconnect at version %d: first auth payload %d bytes, second %d bytes", j.v, j.a, j.b)
+		ctx := map[string]any{"version": j.v, "first_payload": j.a, "second_payload": j.b}
+		ini, rsp := c.parties()
+		ri, rr, _, err := runHandshake(ini, rsp, hsOpts{})
+		if err != nil || !ri.completed || !rr.completed {
+			r.Violation("untampered-compatible-fails", fmt.Sprintf("%s: first handshake failed: %v / %v / %v", label, err, ri.err, rr.err), ctx)
+			return
+		}
+		second := authPayload(j.b)
+		for k := range second {
+			second[k] ^= 0x5a
+		}
+		ini2, rsp2 := c.parties()
+		rsp2.auth = second
+		if j.v >= 2 {
+			// paired: both sides use the stored keys
+			ini2.remote, rsp2.remote = rsp.local, ini.local
+		}
+		ri2, rr2, _, err := runHandshake(ini2, rsp2, hsOpts{reuseI: ri.connData})
+		if err != nil || !ri2.completed || !rr2.completed {
+			r.Violation("reconnect-fails", fmt.Sprintf("%s: second handshake failed: %v / %v / %v", label, err, ri2.err, rr2.err), ctx)
+			return
+		}
+		atomic.AddInt64(&reconnects, 1)
+		if got := ri2.connData.AuthData(); !bytes.Equal(got, second) {
+			r.Violation("views-differ/reconnect/auth-payload",
+				fmt.Sprintf("%s: after the second handshake the initiator holds %d bytes (%x…) but the responder sent %d bytes", label, len(got), trunc16(got), len(second)), ctx)
+			return
+		}
+		note("reconnect/agree")
+	})
+	r.Set("reconnect_cases", reconnects)
 
 	// Part B1: every combination of version-byte substitutions (0..3 per
 	// act) on every configuration.
